@@ -32,10 +32,11 @@ def run_checks(root, repo_dir):
 
 def main():
     pid, k = sys.argv[1], sys.argv[2]
-    wt = "/tmp/seed/%s" % pid
+    wt = "%s/%s" % (os.environ.get("SEED_DIR", "/tmp/seed"), pid)
     src = os.path.join(wt, "seed_out", k)
     patch = os.path.join(src, "patch.diff")
-    tag = "%s-r5-%s" % (pid, k)
+    rnd = os.environ.get("NEUTRAL_ROUND", "r5")
+    tag = "%s-%s-%s" % (pid, rnd, k)
     out = os.path.join(V, "seeded", "_neutral", tag)
     os.makedirs(out, exist_ok=True)
     shutil.copy(patch, os.path.join(out, "patch.diff"))
@@ -48,12 +49,8 @@ def main():
             shutil.copy(os.path.join(src, f), os.path.join(out, f))
     demo_dir = os.path.join(src, "demo")
     if os.path.isdir(demo_dir):
-        os.makedirs(os.path.join(out, "demo", "src"), exist_ok=True)
-        for f in ("Cargo.toml",):
-            if os.path.exists(os.path.join(demo_dir, f)):
-                shutil.copy(os.path.join(demo_dir, f), os.path.join(out, "demo", f))
-        if os.path.exists(os.path.join(demo_dir, "src", "main.rs")):
-            shutil.copy(os.path.join(demo_dir, "src", "main.rs"), os.path.join(out, "demo", "src", "main.rs"))
+        # the complete demonstration project (without build output)
+        subprocess.call(["rsync", "-a", "--delete", "--exclude", "target*", "--exclude", "*.log", "--max-size=400k", demo_dir + "/", os.path.join(out, "demo") + "/"])
     confirm = {}
     sh("git checkout -- .", cwd=wt)
     rc, o, e = sh(["git", "apply", "--check", patch], cwd=wt)
@@ -91,7 +88,7 @@ def main():
                 base_alarms = run_checks(os.environ["VERIF_BASELINE"], d)
     finally:
         shutil.rmtree(d, ignore_errors=True)
-    meta = {"property": pid, "kind": "neutral", "seed": k, "round": 5, "from_agent": meta_in, "confirmed_by_me": confirm,
+    meta = {"property": pid, "kind": "neutral", "seed": k, "round": int(os.environ.get("NEUTRAL_ROUND", "r5")[1:]), "from_agent": meta_in, "confirmed_by_me": confirm,
             "first_run_false_alarms": base_alarms if base_alarms is not None else alarms,
             "false_alarms_now": alarms}
     old = os.path.join(out, "meta.json")
